@@ -8,6 +8,7 @@ LEAN_MODULES = ["ViaProofs.C10"]
 LEMMA_MODULES = ['ViaProofs.ConnLemmas']
 REQUIRED_THEOREMS = ['Via.C10', 'Via.C10_filter_reject']
 LEVEL = "proof"
+LEVEL_TEXT = ('PROOF over every history of accepts, completions, errors, application actions and teardowns that per connection connected is signalled at most once, disconnected at most once and only after connected, NO application callback of any kind follows disconnected, and retained = open; no transition raises. Correspondence with the real server templates (incl. handlers that disconnect inside callbacks) and real-socket abrupt-close runs.')
 TRUSTED_BASE = S.SIM_TRUSTED
 ASSUMPTIONS = S.SIM_ASSUMPTIONS
 compare = S.compare
